@@ -116,7 +116,7 @@ class C08(CleanBase):
             "`go test -run <pattern>` for 27 patterns (plain names, substrings, alternations, multi-level A/b, anchors) x {report, clean} "
             "mode, Go's own -v output being the oracle for which tests ran; every entry/file of a test that did not run must survive "
             "and must not be listed; non-trivial = a pattern that filtered out at least one test")
-    outside_model = ("regexp syntax beyond alternations of anchored literals; Go's per-level -run selection is NOT modelled (the real runner is the oracle); "
+    outside_model = ("regexp syntax beyond alternations of (per level) anchored literals - there the real runner alone is the oracle; "
                      "-skip flag")
     trusted = []
 
